@@ -1664,7 +1664,7 @@ tenbytefloat2int (uint8_t *bytes)
 	if (bytes [0] > 0x40)	/* Way too big. */
 		return 0x4000000 ;
 
-	if (bytes [0] == 0x40 && bytes [1] > 0x1C) /* Too big. */
+	if (bytes [0] == 0x40 && bytes [1] > 0x1D) /* Too big for an int (2^31 and above). */
 		return 800000000 ;
 
 	/* Ok, can handle it. */
@@ -1690,11 +1690,7 @@ uint2tenbytefloat (uint32_t num, uint8_t *bytes)
 
 	bytes [0] = 0x40 ;
 
-	if (num >= mask)
-	{	bytes [1] = 0x1D ;
-		return ;
-		} ;
-
+	/* A sample rate is an int : the top bit is at the mask (count == 0) or below it. */
 	for (count = 0 ; count < 32 ; count ++)
 	{	if (num & mask)
 			break ;
